@@ -180,7 +180,8 @@ pub fn as_position(index: usize, text: &str) -> Position {
             line += 1;
             character = 0;
         } else {
-            character += 1;
+            // LSP columns count UTF-16 code units
+            character += c.len_utf16() as u32;
         }
     }
     Position { line, character }
@@ -209,10 +210,9 @@ fn as_index_range(pos_range: &PosRange, text: &str) -> TextRange {
 pub fn get_insertion_index(position: &Position, text: &str) -> usize {
     let mut line = 0;
     let mut character = 0;
-    let pos = (position.line, position.character);
     let mut chars = text.char_indices().peekable();
     while let Some((i, c)) = chars.next() {
-        if (line, character) == pos {
+        if line == position.line && character >= position.character {
             return i;
         }
         // A column past the end of a line means the end of that line (LSP),
@@ -225,7 +225,8 @@ pub fn get_insertion_index(position: &Position, text: &str) -> usize {
             line += 1;
             character = 0;
         } else {
-            character += 1;
+            // LSP columns count UTF-16 code units
+            character += c.len_utf16() as u32;
         }
     }
     text.len()
